@@ -267,9 +267,58 @@ def h_checksum_report(W, ob):
     ob.check(ok, 'on_checksum_report|stores-pair', 'a received report is stored under its frame with its checksum', 'on_checksum_report does not store (body.frame -> body.checksum)', where(r))
 
 
+def h_from_inputs(W, ob):
+    """InputBytes::from_inputs: the packet frame is the frame of an input that HAS one (blank inputs of disconnected players carry NULL_FRAME and must
+    not overwrite it), and every present input is serialised whatever its frame (the byte layout is positional)"""
+    f = W.fn('InputBytes::from_inputs')
+    cx = W.ctx(f)
+    G = W.guards(f)
+    lits = [st for f2, st in W.constructions('InputBytes') if f2 is f]
+    ok = False
+    why = 'no InputBytes literal'
+    for st in lits:
+        fields = dict(zip(st.rv.j['fields'], st.rv.ops))
+        op = fields.get('frame')
+        if op is None or not op.is_place():
+            continue
+        src = trace_back(W, f, op, strict=True)
+        loc = src[1].local if src and src[0] == 'place' else op.place.local
+        def alternatives(l, depth=0):
+            """(value key, block of the defining statement) of every definition of local l, temporaries expanded"""
+            out = []
+            for kind, d in cx.full_defs(l):
+                if kind != 'stmt':
+                    out.append(('?', None))
+                    continue
+                e = cx.expr_rvalue(d.rv)
+                if e[0] == 'var' and e[1] != l and depth < 3 and cx.full_defs(e[1]):
+                    out.extend(alternatives(e[1], depth + 1))
+                else:
+                    out.append((key(e), d))
+            return out
+        vals = alternatives(loc)
+        own = '#%d' % loc
+        init = [v for v, _ in vals if v in ('NULL_FRAME', '-1')]
+        upd = [(v, d) for v, d in vals if v not in ('NULL_FRAME', '-1') and not v.endswith(own)]
+        good = bool(init) and bool(upd)
+        for v, d in upd:
+            g = G.guard(d.bb) if d is not None else []
+            if not (v.endswith('.frame') and every_disjunct_has(g, lambda a: match_lin(a, [(exact(v), 1)], neq=-1) or match_lin(a, [(exact(v), 1)], lo=0))):
+                good = False
+                why = 'the packet frame is overwritten with `%s` under `%s` (no `!= NULL_FRAME` test on the new value)' % (v, dnf_str(g)[:160])
+        ok = good
+    ob.check(ok, 'from_inputs|frame-of-a-real-input', 'the packet frame is taken from an input whose frame is not NULL_FRAME', 'InputBytes::from_inputs: ' + why, where(f))
+    ser = [t for t in f.calls() if (t.callee.path or t.callee.best or '').startswith('bincode::serialize_into')]
+    ob.require_count(len(ser), 1, 'serialize_into in from_inputs')
+    for t in ser:
+        eg = G.essential_guard(t.bb)
+        ok2 = all(all(a[0] == 'is' and a[2] == 'Some' for a in c) for c in eg)
+        ob.check(ok2, 'from_inputs|every-present-input', 'every input present in the map is serialised, whatever its frame', 'an input is serialised only under `%s`' % dnf_str(eg)[:200], where(f, t.line))
+
+
 ALL = dict(last_recv_frame=h_last_recv_frame, prev_pos=h_prev_pos, confirmed_input=h_confirmed_input_, get_cell=h_get_cell, saved_state_by_frame=h_saved_state_by_frame,
            cell_accessors=h_cell_accessors, player_input=h_player_input, protocol_state_tests=h_protocol_state_tests, endpoint_getters=h_endpoint_getters,
-           add_input=h_add_input, next_complete=h_next_complete, registry_counts=h_registry_counts, checksum_report=h_checksum_report)
+           add_input=h_add_input, next_complete=h_next_complete, registry_counts=h_registry_counts, checksum_report=h_checksum_report, from_inputs=h_from_inputs)
 
 
 def bundle(*names):
